@@ -54,9 +54,15 @@ def all_exits_assign(body, target, assigned=False):
     """list of (lineno, kind) exits reached without `target = ...` on the path; loops may run zero times"""
     missing = []
 
-    def walk(stmts, a):
-        """returns assigned-state at fall-through, or None if the block always leaves"""
+    def walk(stmts, a, breaks=None):
+        """returns assigned-state at fall-through, or None if the block always leaves; `breaks` collects the state at every `break` of the
+        innermost loop"""
         for st in stmts:
+            if isinstance(st, ast.Break) and breaks is not None:
+                breaks.append(a)
+                return None
+            if isinstance(st, ast.Continue):
+                return None
             if isinstance(st, (ast.Assign, ast.AugAssign, ast.AnnAssign)):
                 targets = st.targets if isinstance(st, ast.Assign) else [st.target]
                 if any(src(t) == target for t in targets):
@@ -70,7 +76,7 @@ def all_exits_assign(body, target, assigned=False):
             elif isinstance(st, ast.If):
                 outs = []
                 for test, blk in if_chain(st):
-                    outs.append(walk(blk, a))
+                    outs.append(walk(blk, a, breaks))
                 chain = if_chain(st)
                 if chain[-1][0] is not None:
                     outs.append(a)
@@ -79,21 +85,23 @@ def all_exits_assign(body, target, assigned=False):
                     return None
                 a = all(live)
             elif isinstance(st, (ast.For, ast.While)):
-                r = walk(st.body, a)
-                # zero iterations keep `a`
+                bl = []
+                walk(st.body, a, bl)
+                ex = a  # exhausted (possibly after zero iterations): keep the state before the loop
                 if st.orelse:
-                    r2 = walk(st.orelse, a)
-                    if r2 is None:
-                        return None
-                    a = a and r2 if r2 is not None else a
+                    ex = walk(st.orelse, ex, breaks)
+                states = bl + ([ex] if ex is not None else [])
+                if not states:
+                    return None
+                a = all(states)
             elif isinstance(st, ast.Try):
-                o = [walk(st.body, a)] + [walk(h.body, a) for h in st.handlers]
+                o = [walk(st.body, a, breaks)] + [walk(h.body, a, breaks) for h in st.handlers]
                 live = [x for x in o if x is not None]
                 if not live:
                     return None
                 a = all(live)
             elif isinstance(st, ast.With):
-                a = walk(st.body, a)
+                a = walk(st.body, a, breaks)
                 if a is None:
                     return None
         return a
@@ -220,7 +228,7 @@ def rule_sibling_agreement(ck, repo, R):
     # first matching rule wins in calc_implicit: the loop returns on the first hit
     f = repo.func(sites[0])
     loop = [n for n in ast.walk(f.node) if isinstance(n, ast.For) and src(n.iter) == 'rules']
-    ck.decide(len(loop) == 1 and any(isinstance(x, ast.Return) for x in ast.walk(loop[0])), R, 'first-match-wins', None,
+    ck.decide(len(loop) == 1 and any(isinstance(x, (ast.Return, ast.Break)) for x in ast.walk(loop[0])), R, 'first-match-wins', None,
               'calc_implicit no longer stops at the first matching rule', file=f.file, line=f.lineno)
     # check_implicit asks "is there ANY rule with this hydrogen count whose environment matches" (elements list several H counts under one
     # valence key, e.g. [S] / [SH2]); the count test is part of the per-rule predicate and only a full match returns True
